@@ -550,6 +550,7 @@ func (p *Pool) Portfolio(kinds []string, script string, getValues []string, time
 	var got []CheckResult
 	var best *CheckResult
 	var grace <-chan time.Time
+	t0 := time.Now()
 collect:
 	for range kinds {
 		select {
@@ -561,8 +562,16 @@ collect:
 				if !all {
 					break collect
 				}
-				// cross-check mode: the other back ends get a bounded grace period to agree or disagree
-				grace = time.After(45 * time.Second)
+				// cross-check mode: the other back ends get a bounded grace period to agree or
+				// disagree: four times what the first answer took, at least 5 s, at most 45 s
+				g := 4 * time.Since(t0)
+				if g < 5*time.Second {
+					g = 5 * time.Second
+				}
+				if g > 45*time.Second {
+					g = 45 * time.Second
+				}
+				grace = time.After(g)
 			}
 		case <-grace:
 			break collect
